@@ -183,6 +183,7 @@ class EventManager(Runnable):
         except CloudCursorError as e:
             log.exception("Cursor error... resetting cursor. %s", e)
             self.provider.current_cursor = self.provider.latest_cursor
+            self._forget_walk()
             self._save_current_cursor()
             self.need_walk = True
             self.backoff()
@@ -191,6 +192,12 @@ class EventManager(Runnable):
             # it can be raised during reconnect in the exception handler and in do_unsafe
             self.need_auth = True
             self.backoff()
+
+    def _forget_walk(self):
+        # the cursor is about to be re-seeded from the provider, so a walk is due; the need for it must survive a
+        # restart: drop the stored walk marker before the new cursor is persisted
+        if self._walk_tag is not None:
+            self.state.storage_delete_tag(self._walk_tag)
 
     def _do_walk_if_needed(self):
         if self.need_walk and self._root_oid:
@@ -211,6 +218,8 @@ class EventManager(Runnable):
             if self.cursor is None:
                 self.cursor = self.provider.current_cursor
                 if self.cursor is not None:
+                    if self.need_walk:
+                        self._forget_walk()
                     self.state.storage_update_data(self._cursor_tag, self.cursor)
             else:
                 log.debug("retrieved existing cursor %s for %s", self.cursor, self.provider.name)
